@@ -102,6 +102,9 @@ META["rule"] += (
 META["rule"] += (
     " " + 'Added after the sixth round: the distance-weighted measures are evaluated before distance() is read in half of the cases.')
 
+META["rule"] += (
+    " " + 'Added after the seventh round: whole-numbered lookup queries next to nodes as int / int8 / uint8 / int16 / int64 / float32 scalars.')
+
 STYLES = ["generic", "pole", "antimeridian", "coincident", "antipodal",
           "regular", "mixed"]
 
@@ -342,9 +345,25 @@ def check_lookup_geo(ctx, g, lat, lon, cid, nq):
             la, lo = _sphere(r, 1)
             qs.append((float(la[0]), float(lo[0]) if c == 3 else
                        float(lo[0]) % 360.0, "generic"))
+    # whole-numbered query points close to a node, in the numeric type a
+    # caller may hold them in (Python int, NumPy integers of 8 .. 64 bit,
+    # float32)
+    for q in range(max(3, nq)):
+        i = int(r.integers(0, n))
+        qa, qo = int(np.round(lat[i])), int(np.round(lon[i]))
+        cands = [("int", int), ("float32", np.float32), ("int64", np.int64),
+                 ("int16", np.int16)]
+        if -128 <= qa <= 127 and -128 <= qo <= 127:
+            cands += [("int8", np.int8)] * 3
+        if 0 <= qa <= 255 and 0 <= qo <= 255:
+            cands += [("uint8", np.uint8)] * 3
+        nm, ty = cands[int(r.integers(0, len(cands)))]
+        qs.append((ty(qa), ty(qo), "whole-number:" + nm))
+        ctx.count("lookup_query_type:" + nm)
     for qlat, qlon, qc in qs:
         ok, idx = ctx.call(g.node_number, qlat, qlon)
         ctx.evals()
+        qlat, qlon = float(qlat), float(qlon)
         if not ok:
             ctx.violation(f"GeoGrid.node_number:raises:{type(idx).__name__}"
                           f":{qc}", {"lat": lat, "lon": lon, "q": (qlat, qlon),
